@@ -133,9 +133,17 @@ func c15MatchLine(c C15Case, e C15Entry, out []byte, pos int) (int, string, bool
 var c15Palette = map[string]bool{}
 
 func init() {
-	for i := 30; i <= 37; i++ {
-		c15Palette[fmt.Sprint(i)] = true
-		c15Palette[fmt.Sprint(i)+";1"] = true
+	// Any foreground colour counts as a palette colour: the eight standard ones, their bright
+	// variants, with or without bold, and the 256-colour form.
+	for _, base := range []int{30, 90} {
+		for i := base; i <= base+7; i++ {
+			c15Palette[fmt.Sprint(i)] = true
+			c15Palette[fmt.Sprint(i)+";1"] = true
+			c15Palette["1;"+fmt.Sprint(i)] = true
+		}
+	}
+	for i := 0; i < 256; i++ {
+		c15Palette["38;5;"+fmt.Sprint(i)] = true
 	}
 }
 
